@@ -2023,9 +2023,13 @@ def call_parser_function(
         )
         return ""
 
+    stack_len = len(ctx.expand_stack)
     try:
         ret = fn(ctx, fn_name, args, expander)
     except Exception as e:
+        # The failure may come from expanding an argument: drop the path
+        # entries of the sub-expansions it interrupted.
+        del ctx.expand_stack[stack_len:]
         # Parser functions are total in MediaWiki: bad input (domain and
         # overflow errors in #expr, missing arguments, huge numbers, unknown
         # namespaces...) gives an in-band error, never an exception out of
